@@ -5,7 +5,7 @@ from vf.lazy import ck, libx, common
 from vf.monitors import algos
 
 PROP = "C07"
-TECHNIQUE = ('runtime monitoring: ParFront vs ParCons partitions judged against ALL minimisers enumerated by a DP oracle; consistent_with judged on generated pairs with known truth; composite block oracle (all optima as concatenations) for 11-40 elements; partition again after an in-place mutation; partitions of datasets pickled by another interpreter')
+TECHNIQUE = ('runtime monitoring: ParFront vs ParCons partitions judged against ALL minimisers enumerated by a DP oracle; consistent_with judged on generated pairs with known truth; composite block oracle (all optima as concatenations) for 11-40 elements; partition again after an in-place mutation; partitions of datasets pickled by another interpreter; datasets given non-uniform constructor weights')
 RULE = ("cases = dataset (D11/D10 block structured with >= 3 components and cascading merges, D8, D9, D3; n<=7 quick, "
         "<=9 thorough; 8 % of the cases: 11-24 (thorough: -40) elements in ordered blocks, where the composite oracle "
         "ref.BlockOptimum knows every optimum as a concatenation of block minimisers when 'before' is strictly cheapest "
